@@ -325,6 +325,10 @@ def _w(s: int) -> str:
     return {-1: "lower", 0: "equal", 1: "higher"}[s]
 
 
+# set by store_key: _store_key itself refuses public-key envelopes (then the call sites need no guard of their own)
+STORE_DROPS_PUBLIC = [False]
+
+
 def store_key(repo: Repo, chk: Check) -> None:
     from sa.pathsum import Summary
 
@@ -349,6 +353,8 @@ def store_key(repo: Repo, chk: Check) -> None:
     bad: t.List[str] = []
     rows = []
     any_store = False
+    seen_pub: t.Set[bool] = set()
+    pub_leaks: t.List[str] = []
     try:
         for vec, exists, val, feas in _scenarios(rets, table, "X", fa, fb):
             outs = {stored(p) for p in feas}
@@ -363,12 +369,23 @@ def store_key(repo: Repo, chk: Check) -> None:
                 bad.append(f"{where}: the store is not 'entry[root key id][SD][key.l0] = key'")
                 continue
             want = True if not exists else ordertab.lex_cmp(vec, ROLES) > 0
+            pub = [v_ for k_, v_ in val.items() if k_.replace(" ", "") in ("key.is_public_key", "notkey.is_public_key")]
+            if pub:
+                seen_pub.add(True)
+                if (pub[0] is True) == ("not" not in [k_ for k_ in val if "is_public_key" in k_][0]):
+                    # a public-key envelope: never cached (the guard may live here instead of at the four call sites)
+                    if outs != {False}:
+                        pub_leaks.append(where)
+                    continue
             any_store = any_store or True in outs
             if outs != {want}:
                 bad.append(f"{where} is " + ("stored" if True in outs else "dropped") + (" (no entry)" if not exists else ""))
     except ordertab.NotOrderPredicate as e:
         bad.append(f"store condition contains '{e}'")
     chk.table("_store_key outcome table", rows)
+    STORE_DROPS_PUBLIC[0] = bool(seen_pub) and not pub_leaks
+    if pub_leaks:
+        bad.append(f"a public-key envelope is stored ({pub_leaks[0]})")
     site = Site.of(f, construct="_store_key: overwrite iff no entry or later position")
     if not any_store and not bad:
         bad.append("no path stores the envelope")
@@ -448,7 +465,7 @@ def api_discipline(repo: Repo, chk: Check) -> None:
         s = stores[0]
         sid = rd.node_of(s)
         sg = g.guards_of(sid) if sid is not None else []
-        okp = any(unparse(e) == f"{rkname}.is_public_key" and pol is False for e, pol in sg)
+        okp = any(unparse(e) == f"{rkname}.is_public_key" and pol is False for e, pol in sg) or STORE_DROPS_PUBLIC[0]
         chk.ob("O4", ss, okp, "only seed-key envelopes are cached" if okp else "_store_key is not guarded by 'not rk.is_public_key': a public-key envelope would be served from the cache to callers who need seed keys")
         inside_miss = any(unparse(e) == rkname and pol is False for e, pol in sg)
         chk.ob("O4", ss, not inside_miss, "stored whichever way the key was obtained" if not inside_miss else "the store only happens on the RPC path")
